@@ -437,6 +437,12 @@ func (a *oauth2IntrospectionAuthenticator) getCacheTTL(introspectResp *oauth2.In
 		},
 		func() time.Duration { return 0 })
 
+	// if the token expires too soon to be cached (or is accepted only due to the validity leeway),
+	// the configured ttl must not extend its lifetime
+	if introspectResp.Expiry != nil && introspectionResponseTTL == 0 {
+		return 0
+	}
+
 	configuredTTL := x.IfThenElseExec(a.ttl != nil,
 		func() time.Duration { return *a.ttl },
 		func() time.Duration { return 0 })
